@@ -4,6 +4,8 @@
       view ::= (0 bytes) text | (1) unit | (2 tag attrs kids) element | (3 tag attrs) void element
              | (4 views) tuple | (5 v) Some | (6) None | (7 v) Left | (8 v) Right | (9 views) Vec
              | (10 v) AnyView | (11 views) keyed | (12 dom) inert element | (13 n) integer primitive
+             | (14 id pending v) Suspend (here: future ready) | (15 tag attrs parts) raw-text element
+               textarea/style/script, parts ::= ((1 bytes) | (0) ..) string child / child rendering nothing
       tag (element) indexes [div span p section ul main], tag (void) indexes [br hr img input],
       attrs ::= ((key bytes) ..) with key indexing [id title lang],
       dom ::= (0 bytes) | (1) | (2 name attrs doms)   (names and attribute names as bytes)
@@ -20,6 +22,7 @@ Import ListNotations.
 
 Definition elem_tags : list bytes := [s_div; s_span; s_p; s_section; s_ul; s_main].
 Definition void_tags : list bytes := [s_br; s_hr; s_img; s_input].
+Definition raw_tags : list bytes := [s_textarea; s_style; s_script].
 Definition attr_keys : list bytes :=
   [[105; 100]; [116; 105; 116; 108; 101]; [108; 97; 110; 103]]%N.
 
@@ -71,6 +74,13 @@ Fixpoint dec_view (s : sexp) : view :=
       | Num 11%Z :: Lst vs :: _ => VKeyed (many vs)
       | Num 12%Z :: d :: _ => VInert (dec_dom d)
       | Num 13%Z :: n :: _ => VText (digits (as_N n))
+      | Num 14%Z :: _ :: _ :: v :: _ => VSuspend (dec_view v)  (* Suspend whose future is ready *)
+      | Num 15%Z :: t :: a :: Lst ps :: _ =>
+          VRaw (nth (as_nat t) raw_tags []) (dec_attrs a)
+               (map (fun p => match as_list p with
+                              | Num 1%Z :: b :: _ => Some (as_bytes b)
+                              | _ => None
+                              end) ps)
       | _ => VUnit
       end
   end.
@@ -120,6 +130,7 @@ Fixpoint touched (s : stree) : list path :=
   | SLeftS s | SRightS s | SAny s => touched s
   | SVec l _ => seq l
   | SKeyed _ _ _ => []      (* a keyed rebuild with unchanged keys never rebuilds its items *)
+  | SSusp _ => []           (* Suspend::rebuild only spawns a task; nothing is rebuilt synchronously *)
   end.
 
 Fixpoint insert_sorted (x : nat) (l : list nat) : list nat :=
